@@ -267,3 +267,36 @@ Print Assumptions C13_new_blocks_taken.
 Print Assumptions C13_peers_exact_refuted.
 Print Assumptions C13_conns_exact_refuted.
 Print Assumptions C13_req_states_after_poll_refuted.
+
+(* ---- lifted to networks (package K): a node's client holds state for j only while the net connects them; once the event
+   of a query is out the client holds nothing about it. *)
+From BS Require Import Types Wantlist Wantlist_proofs2 Client Client_proofs Client_proofs4 Net Net_proofs Net_proofs6 Net_props Net_proofs2 Net_proofs5 Net_proofs21 Net_proofs40 Net_proofs41 Net_proofs42 Net_proofs43 Net_proofs44 Net_proofs45 Net_proofs46 Net_proofs47 Server Net_props4.
+From Coq Require Import ZArith Lia.
+Open Scope N_scope.
+
+Theorem C13_net_client_released :
+  forall (Sz : N) (Hh : hash_fn) (n : nat) (ops : list nop) (i j : N) (ni : node),
+  get_node (fst (nrun Sz Hh (net_init n) ops)) i = Some ni ->
+  Net.connected (fst (nrun Sz Hh (net_init n) ops)) i j = false ->
+  al_find N.eqb j (cs_peers (n_client ni)) = None.
+Proof. exact (@Net_props4.C13_net_client_released). Qed.
+
+Theorem C13_net_peers_connected :
+  forall (Sz : N) (Hh : hash_fn) (n : nat) (ops : list nop) (i : N) (j : peer) (ni : node) (ps : peer_state),
+  get_node (fst (nrun Sz Hh (net_init n) ops)) i = Some ni ->
+  In (j, ps) (cs_peers (n_client ni)) ->
+  Net.connected (fst (nrun Sz Hh (net_init n) ops)) i j = true /\ p_conns ps = [CONN].
+Proof. exact (@Net_props4.C13_net_peers_connected). Qed.
+
+Theorem C13_net_query_released :
+  forall (Sz : N) (Hh : hash_fn) (n : nat) (ops : list nop) (i : N) (q : qid) (ni : node),
+  get_node (fst (nrun Sz Hh (net_init n) ops)) i = Some ni ->
+  In (i, q) (ev_keys (snd (nrun Sz Hh (net_init n) ops))) ->
+  ~ In q (task_qids (cs_tasks (n_client ni))) /\
+  ~ In q (c2q_qids (cs_c2q (n_client ni))) /\
+  ~ In q (queue_qids (cs_queue (n_client ni))) /\ ~ In q (map fst (cs_abort (n_client ni))).
+Proof. exact (@Net_props4.C13_net_query_released). Qed.
+
+Print Assumptions C13_net_client_released.
+Print Assumptions C13_net_peers_connected.
+Print Assumptions C13_net_query_released.
